@@ -19,6 +19,20 @@ but component x - and TLC records which of them every exported walk exposes; the
 does not expose every independently changeable component of every object kind in both directions.  harness/c05
 (TestHistory) replays the sessions on ONE set of caller objects rewritten in place, one session after the other on
 one goroutine; TestHistoryConcurrent runs a sample in parallel and on shared objects under the race detector.
+
+Two further dimensions (round 5).  (a) The SHAPE of the certificate chain a precertificate SCT is verified against
+(clause EntryFromChain; the Issuance / Orders of spec/ctfe/EntryShapes.tla): issued directly or by a precertificate
+signing certificate (key-id AKI, keyid+issuer+serial AKI, CT usage listed second) x the RFC 6962 extension that is
+taken out (poison; SCT list of the embedded form) last / directly before the authority key identifier / first.  The
+verdict must not depend on it (ShapeIrrelevant); the signed TBSCertificate of every shape is derived by harness/ref from
+the verbatim DER elements and signed with std crypto, so ctutil.VerifySCT -> x509.BuildPrecertTBS / RemoveSCTList is
+compared with an independent oracle.  (b) ERRORS inside a session (clause Unencodable): a field value outside the domain
+of its RFC 5246 field (extensions > 65535 bytes, empty / over-long certificate or TBSCertificate, undefined entry type)
+has no signed bytes: the call is refused - and leaves nothing behind.  SigVerifyHist.tla models the non-function
+Residue (what a refused call had emitted is taken up by the next call that builds signed bytes) next to Memo(x): refused
+presentations of the session's own object and Interludes (an unencodable object of another kind, same goroutine, same
+verifiers) are session steps, the value form "glued" is a genuine signature over residue || canonical bytes, and the
+driver demands that the walks expose Residue in both directions for every kind that builds signed bytes.
 """
 import json
 
@@ -46,6 +60,19 @@ ASSUME = [
     "leaf (documented as 'adjusted for the timestamp in the SCT'); that field at that entry point is exempt from ArgsKept",
     "ctutil.LeafHash/LeafHashB64 are checked as functions only (equal arguments equal hash, different (certificate, issuer "
     "key, timestamp) different hash); the value is C04's",
+    "named clause EntryFromChain: the signed TBSCertificate of a precertificate chain is the precertificate's with exactly "
+    "the poison taken out and, behind a precertificate signing certificate, the final issuer's name and authority key "
+    "identifier in place (RFC 6962 3.2), computed by harness/ref from the verbatim DER; one-call table: the 11 non-standard "
+    "shapes (issuance direct/viaP/viaPf/viaPm x poison or SCT list last/before the AKI/first) are crossed with SHA-256 and "
+    "the mutations that touch the signed bytes (none, every signed field, unencodable fields, another key, glued value); "
+    "sessions draw any shape with any mutation.  Not asserted: a precertificate without an authority key identifier "
+    "behind a signing certificate that has one (and the converse), where RFC 6962 does not say what the final certificate carries",
+    "named clause Unencodable: extensions of 65536 bytes and more, an empty certificate / TBSCertificate (one of 2^24 bytes "
+    "in the thorough tier), an entry type other than 0 / 1 have no encoding, hence no signed bytes: refused with an error. "
+    "Go-level malformations of the caller's LogEntry (nil TimestampedEntry, nil arm pointers) are not presented",
+    "Residue (history): the glued value signs (prefix || canonical bytes) where the prefix is what an RFC 5246 encoder has "
+    "emitted of the refused CertificateTimestamp when it meets the unencodable field (arbitrary bytes when nothing was "
+    "refused before); an implementation leaving other residue is caught in the stale-reject direction only",
 ]
 
 
